@@ -262,8 +262,6 @@ class Interp:
         if isinstance(f, ast.Name) and f.id == "isinstance" and len(e.args) == 2:
             t = self.ev(e.args[1])
             return isinstance(self.ev(e.args[0]), t)
-        if isinstance(f, ast.Name) and f.id == "type" and len(e.args) == 1 and not e.keywords and "type" not in self.env:
-            return type(self.ev(e.args[0]))
         if isinstance(f, ast.Name) and f.id in ("len", "set", "abs", "min", "max", "float", "int", "bool", "tuple", "list", "sorted"):
             fn = {"len": len, "set": set, "abs": abs, "min": min, "max": max, "float": float, "int": int, "bool": bool, "tuple": tuple, "list": list, "sorted": sorted}[f.id]
             return fn(*[self.ev(a) for a in e.args])
@@ -271,6 +269,8 @@ class Interp:
             r = self.call_hook(self, e)
             if r is not _MISSING:
                 return r
+        if isinstance(f, ast.Name) and f.id == "type" and len(e.args) == 1 and not e.keywords and "type" not in self.env:
+            return type(self.ev(e.args[0]))
         if isinstance(f, ast.Name) and f.id in _PURE_BUILTINS and f.id not in self.env:
             return _PURE_BUILTINS[f.id](*[self.ev(a) for a in e.args], **{k.arg: self.ev(k.value) for k in e.keywords})
         if isinstance(f, ast.Name) and callable(self.env.get(f.id)):  # a callable handed in by the case (e.g. a default rule)
